@@ -2345,6 +2345,8 @@ pub fn compile<I: BufRead, O: Write>(
         .op(Op::infix(Rule::assign, Assoc::Right)
             | Op::infix(Rule::mass, Assoc::Right)
             | Op::infix(Rule::pass, Assoc::Right)
+            | Op::infix(Rule::mulass, Assoc::Right)
+            | Op::infix(Rule::divass, Assoc::Right)
             | Op::infix(Rule::andass, Assoc::Right)
             | Op::infix(Rule::orass, Assoc::Right)
             | Op::infix(Rule::xorass, Assoc::Right)
@@ -2379,6 +2381,8 @@ pub fn compile<I: BufRead, O: Write>(
         .op(Op::infix(Rule::assign, Assoc::Right)
             | Op::infix(Rule::mass, Assoc::Right)
             | Op::infix(Rule::pass, Assoc::Right)
+            | Op::infix(Rule::mulass, Assoc::Right)
+            | Op::infix(Rule::divass, Assoc::Right)
             | Op::infix(Rule::andass, Assoc::Right)
             | Op::infix(Rule::orass, Assoc::Right)
             | Op::infix(Rule::xorass, Assoc::Right)
